@@ -82,13 +82,7 @@ Proof.
     cbv [evalR env_of_Q obs_list nth vLG vMU vA vB vBDOT vTK vLAW o_lg o_mu o_A o_B o_bdot o_tk o_law];
     rewrite ?Q2R_0', ?Q2R_1', ?Q2R_3_10, ?Q2R_10;
     unfold neutral_lin, davies, bdot_dh, ext_dh, co2_drummond, water_isotope, log10.
-  - reflexivity.
-  - unfold Rdiv. ring.
-  - unfold Rdiv. ring.
-  - reflexivity.
-  - unfold Rdiv. ring.
-  - reflexivity.
-  - reflexivity.
+  all: reflexivity.
 Qed.
 
 (* Soundness: an accepted species satisfies the property's relation at 1e-9 (in exact real arithmetic). *)
@@ -128,12 +122,15 @@ Definition gd_term (x : Q * Q * Q * Q) : Q := let '(m0, m1, l0, l1) := x in (m0 
 Definition gd_solute (sp : list (Q * Q * Q * Q)) : Q := fold_right (fun x acc => gd_term x + acc) 0 sp.
 Definition gd_water (lw0 lw1 : Q) : Q := W * (lw1 - lw0).
 Definition gd_residual (sp : list (Q * Q * Q * Q)) (lw0 lw1 : Q) : Q := gd_solute sp + gd_water lw0 lw1.
-(* relative to the size of the water term of the step *)
+(* "relative": w.r.t. the mean size of the two sides that have to balance, measured term by term:
+   (sum_s |solute term_s| + |water term|) / 2   (robust also on mixing paths where the water term is tiny) *)
+Definition gd_scale (sp : list (Q * Q * Q * Q)) (lw0 lw1 : Q) : Q :=
+  (fold_right (fun x acc => Qabs (gd_term x) + acc) 0 sp + Qabs (gd_water lw0 lw1)) / 2.
 Definition gd_check (sp : list (Q * Q * Q * Q)) (lw0 lw1 tol : Q) : bool :=
-  Qle_bool (Qabs (gd_residual sp lw0 lw1)) (tol * Qabs (gd_water lw0 lw1)).
+  Qle_bool (Qabs (gd_residual sp lw0 lw1)) (tol * gd_scale sp lw0 lw1).
 
 Theorem gd_check_sound : forall sp lw0 lw1 tol, gd_check sp lw0 lw1 tol = true ->
-  Qabs (gd_solute sp + gd_water lw0 lw1) <= tol * Qabs (gd_water lw0 lw1).
+  Qabs (gd_solute sp + gd_water lw0 lw1) <= tol * gd_scale sp lw0 lw1.
 Proof. intros sp lw0 lw1 tol H. apply Qle_bool_iff in H. exact H. Qed.
 
 (* The residual does not depend on the single-ion activity convention: shifting every log-activity by
@@ -149,9 +146,9 @@ Definition charge1 (spz : list ((Q * Q * Q * Q) * Q)) : Q :=
 Lemma gd_solute_shift : forall d0 d1 spz,
   gd_solute (map (shift d0 d1) spz) == gd_solute (map fst spz) + (charge0 spz + charge1 spz) / 2 * (d1 - d0).
 Proof.
-  intros d0 d1 spz. induction spz as [|[[[[m0 m1] l0] l1] z] spz IH]; simpl.
+  intros d0 d1 spz. unfold gd_solute. induction spz as [|[[[[m0 m1] l0] l1] z] spz IH]; simpl.
   - field.
-  - unfold gd_solute in IH. rewrite IH. unfold gd_term. field.
+  - rewrite IH. set (S := fold_right _ _ (map fst spz)). field.
 Qed.
 
 Theorem gd_residual_convention_invariant : forall d0 d1 spz lw0 lw1,
@@ -172,4 +169,7 @@ Example check_aw_example : check_aw (98215 # 100000) (1 # 1) (1 # 1) = true.
 Proof. vm_compute. reflexivity. Qed.
 Example gd_check_example :   (* m: 1 -> 1.01 with la rising by 0.004, water la falling by 0.004*1.005/W *)
   gd_check [(1, 101 # 100, 0, 4 # 1000)] 0 (- (402 # 100000) / W) (1 # 10000) = true.
+Proof. vm_compute. reflexivity. Qed.
+Example gd_check_rejects :
+  gd_check [(1, 101 # 100, 0, 4 # 1000)] 0 (- (403 # 100000) / W) (1 # 10000) = false.
 Proof. vm_compute. reflexivity. Qed.
